@@ -479,7 +479,10 @@ SPEC = Spec(
         "a key-wise union. The test-then-insert window of a duplicate test contains "
         "no recursion into children (R10-CHECK-BEFORE-INSERT); the loop over the "
         "broadcast schedule is guarded by globally agreed values only "
-        "(R10-RAISE-REACH)."),
+        "(R10-RAISE-REACH). R10-STATE: the partitioner and the verifier keep no "
+        "state that outlives a call (mutable default arguments, mutated class- or "
+        "module-level containers), so that partitioning a correct program a second "
+        "time gives the same verdict (canary fixture)."),
     not_decided=(
         "That every malformed communication pattern is caught and no well-formed one "
         "is rejected (a for-all over fault positions and topologies)."),
